@@ -683,6 +683,8 @@ GET_PROBE = {"method": "GET", "target": b"/probe".hex(), "version": "HTTP/1.0", 
 
 
 GET_PROBE_11 = {"method": "GET", "target": b"/probe".hex(), "version": "HTTP/1.1", "headers": [["Host", "x"]]}
+# a request WITH a body that the handler reads completely; the client stays connected after the response
+POST_PROBE = {"method": "POST", "target": b"/probe".hex(), "version": "HTTP/1.0", "headers": [], "body": b"hello".hex()}
 
 
 def _response_complete(raw):
@@ -701,7 +703,7 @@ def probe(srv_port, bind, baseline, raised, deadline, version="1.0"):
     # 1. the main thread, immediately after the call returned
     alive = bool(main_threads(baseline))
     host = client_host_for(bind)
-    if version == "1.1":
+    if version in ("1.1", "post"):
         # an HTTP/1.1 client that does not ask for the connection to be closed and stays connected after the
         # response: the worker thread must still end with its response (the server closes the connection)
         s = connect(host, srv_port, deadline)
@@ -710,7 +712,7 @@ def probe(srv_port, bind, baseline, raised, deadline, version="1.0"):
         if s is not None:
             try:
                 try:
-                    s.sendall(request_bytes(GET_PROBE_11))
+                    s.sendall(request_bytes(GET_PROBE_11 if version == "1.1" else POST_PROBE))
                     seen = {"raw": b"", "t": None}
                     out = bytearray()
                     eof = False
@@ -847,7 +849,7 @@ def run_lifecycle(case):
     deadline = time.monotonic() + IO_DEADLINE_S
     log = CallLog()
     H = _state["ScriptedHandler"]
-    hdrs = [[b"Content-Length".hex(), b"2".hex()]] if case.get("probe_version") == "1.1" else []
+    hdrs = [[b"Content-Length".hex(), b"2".hex()]] if case.get("probe_version") in ("1.1", "post") else []
     handlers = [H(0, {"accept": "yes", "result": {"kind": "ret", "status": 200, "headers": hdrs, "body": "6f6b"}}, log)]
     bind = case.get("bind", "::1")
     port = pick_port(bind)
